@@ -303,7 +303,7 @@ class Check:
         }
         # a run pointed at a scratch tree (VERIF_REPO, used by tools/mut.sh and tools/seedcheck.sh) must not
         # replace the evidence of /repo itself
-        evdir = os.path.join(VERIF, "evidence") if os.path.realpath(build.REPO) == "/repo" \
+        evdir = os.path.join(VERIF, "evidence") if os.path.realpath(build.REPO) == "/repo" and not os.environ.get("VERIF_COVER") \
             else os.path.join(VERIF, ".build", "evidence-scratch")
         os.makedirs(evdir, exist_ok=True)
         with open(os.path.join(evdir, p.id + ".json"), "w") as f:
